@@ -71,7 +71,7 @@ def setup_for(ast_or_asts, assignment, truth=None, packages=None, hint_texts=Non
                 hints[atom[1]] = (hint_texts or {}).get(atom[1], f"Hinweis {atom[1]}")
             elif atom[0] == "fc":
                 fcs[atom[1]] = True if truth is None else truth[atom[1]]
-    cer = sut.make_cer(rc=assignment, fc=fcs, hints=hints, packages=packages or {})
+    cer = sut.make_cer(rc=assignment, fc=fcs, hints=hints, packages=packages or {}, extras=style != "hardcoded")
     if style == "hardcoded":
         sut.setup_hardcoded(cer)
         return
